@@ -15,14 +15,18 @@
    A "<k>.memmap" file is the list of its cells together with the dtype they were written with; reading it back with
    another dtype or another element count is a reinterpretation of bytes, which this model does not follow (EReinterpret).
 
-   Quirks of the code that the model keeps (each one is a recorded finding, see Props/C10.v):
-     * a leaf with 0 elements gets no file (torch.from_file creates none) and is skipped by the loader;
-     * metadata.update({"shape", "device", "_type"}) overwrites the records of entries that have these names;
-     * tuples are written as JSON arrays (come back as lists); sets are declared serialisable but orjson refuses them;
-     * NonTensorStack data is tolist(): list-valued payloads are indistinguishable from stack dimensions;
-     * NonTensorData does not record its batch size (it takes the parent's on load);
-     * the lazy-stack loader takes every directory "0","1",... it finds (stale members of an earlier save);
-     * other.pickle of an earlier save overrides the "data" of a later one. *)
+   This is the model of /repo WITH the C10 repairs (fixes/C10/*.diff; the earlier behaviour is in the history of this file
+   and in fixes/C10/fixed.json):
+     D101  a leaf with 0 elements still gets no file (torch.from_file creates none) but the loader builds it from its
+           metadata record instead of skipping it;
+     D102  an entry named "shape" / "device" / "_type" is refused at save time (ValueError) instead of being silently
+           overwritten by _save_metadata;
+     D103/D104  tuples and sets are no longer declared JSON-serialisable: payloads containing them go through pickle;
+     D105  NonTensorStack writes "ndim" (how many levels of "data" are stack dimensions) and _from_list stops there;
+     D106  NonTensorData writes its "batch_size";
+     D107  the dtype string table holds every dtype of torch;
+     D108  a lazy stack writes "num_tensordicts" and the loader takes exactly that many members;
+     D109  a NonTensorData save whose payload needs no pickle removes an other.pickle left by an earlier save. *)
 From Coq Require Import ZArith List String Bool Ascii Decimal DecimalString.
 Import ListNotations.
 Open Scope string_scope.
@@ -38,7 +42,7 @@ Definition bind {A B} (r : res A) (f : A -> res B) : res B := match r with Ok a 
 
 (* ------------------------------------------------------------------ dtypes: str(dtype) and utils._STRDTYPE2DTYPE *)
 Inductive dtype := BF16 | BOOL | C128 | C32 | C64 | F16 | F32 | F64 | I16 | I32 | I64 | I8 | U8 | U16 | U32 | U64
-                 | F8E4M3 | F8E5M2.   (* the last two are torch dtypes that are NOT in _TORCH_DTYPES *)
+                 | F8E4M3 | F8E5M2.   (* two of the dtypes _TORCH_DTYPES gets from `vars(torch)` (not listed by name there) *)
 
 Definition dtype_str (d : dtype) : string :=
   match d with
@@ -49,7 +53,7 @@ Definition dtype_str (d : dtype) : string :=
   | F8E4M3 => "torch.float8_e4m3fn" | F8E5M2 => "torch.float8_e5m2"
   end.
 
-Definition torch_dtypes : list dtype := [BF16; BOOL; C128; C32; C64; F16; F32; F64; I16; I32; I64; I8; U8; U16; U32; U64].
+Definition torch_dtypes : list dtype := [BF16; BOOL; C128; C32; C64; F16; F32; F64; I16; I32; I64; I8; U8; U16; U32; U64; F8E4M3; F8E5M2].
 Definition strdtype2dtype : list (string * dtype) := map (fun d => (dtype_str d, d)) torch_dtypes.
 
 Fixpoint sget {A} (k : string) (l : list (string * A)) : option A :=
@@ -73,7 +77,8 @@ Inductive json :=
 Fixpoint is_json_serializable (p : payload) : bool :=
   match p with
   | PStr _ | PInt _ | PBool _ | PNone => true
-  | PList l | PTuple l | PSet l => (fix all (l : list payload) : bool := match l with [] => true | x :: r => is_json_serializable x && all r end) l
+  | PList l => (fix all (l : list payload) : bool := match l with [] => true | x :: r => is_json_serializable x && all r end) l
+  | PTuple _ | PSet _ => false
   | PDict l => (fix all (l : list (string * payload)) : bool := match l with [] => true | (_, x) :: r => is_json_serializable x && all r end) l
   | PObj _ => false
   end.
@@ -167,6 +172,10 @@ Fixpoint fset (k : fname) (v : content) (l : list (fname * content)) : list (fna
   | (k', v') :: r => if fname_eqb k k' then (k', v) :: r else (k', v') :: fset k v r
   end.
 
+(* os.remove *)
+Fixpoint fdel (k : fname) (l : list (fname * content)) : list (fname * content) :=
+  match l with [] => [] | (k', v') :: r => if fname_eqb k k' then r else (k', v') :: fdel k r end.
+
 Definition render (f : fname) : string :=
   match f with FLeaf k => k ++ ".memmap" | FMeta => "meta.json" | FOther => "other.pickle" | FPkl => "pickle.pkl" end.
 
@@ -202,6 +211,14 @@ Fixpoint tolist (t : td) : payload :=
   | _ => PNone
   end.
 
+(* batch size of a NonTensorStack / NonTensorData *)
+Fixpoint stack_bs (t : td) : list nat :=
+  match t with
+  | NData bs _ => bs
+  | NStack items => List.length items :: match items with x :: _ => stack_bs x | [] => [] end
+  | _ => []
+  end.
+
 Record opts := { copy_existing : bool; like : bool }.
 
 (* MemoryMappedTensor.from_tensor into "<key>.memmap" (memmap.py:167-275) *)
@@ -216,23 +233,28 @@ Definition populate (o : opts) (k : string) (l : leaf) (files : list (fname * co
 Definition sub_dir (k : string) (subs : list (string * dir)) : dir := match sget k subs with Some d => d | None => empty_dir end.
 
 (* the metadata files of the non-tensor classes *)
-Definition ndata_files (p : payload) (files : list (fname * content)) : res (list (fname * content)) :=
+Definition ndata_files (bs : list nat) (p : payload) (files : list (fname * content)) : res (list (fname * content)) :=
   if is_json_serializable p then
     match json_of p with
-    | Some j => Ok (fset FMeta (CJson (JObj [("_type", JStr "NonTensorData"); ("data", j); ("_metadata", JNull)])) files)
+    | Some j => Ok (fdel FOther      (* nothing to pickle: an other.pickle left by an earlier save is removed *)
+                      (fset FMeta (CJson (JObj [("_type", JStr "NonTensorData"); ("batch_size", jshape bs); ("data", j); ("_metadata", JNull)])) files))
     | None => Raised ETypeError
     end
   else Ok (fset FOther (CPickle (PDict [("data", p)]))
-             (fset FMeta (CJson (JObj [("_type", JStr "NonTensorData"); ("_metadata", JNull)])) files)).
+             (fset FMeta (CJson (JObj [("_type", JStr "NonTensorData"); ("batch_size", jshape bs); ("_metadata", JNull)])) files)).
 
-Definition nstack_files (data : payload) (files : list (fname * content)) : res (list (fname * content)) :=
-  let head := [("_type", JStr "NonTensorStack"); ("stack_dim", JInt 0); ("device", JNull)] in
+Definition nstack_files (ndim : nat) (data : payload) (files : list (fname * content)) : res (list (fname * content)) :=
+  let head := [("_type", JStr "NonTensorStack"); ("stack_dim", JInt 0); ("device", JNull); ("ndim", jnat ndim)] in
   if is_json_serializable data then
     match json_of data with
     | Some j => Ok (fset FMeta (CJson (JObj (head ++ [("data", j)]))) files)
     | None => Raised ETypeError
     end
   else Ok (fset FMeta (CJson (JObj (head ++ [("data", JStr "pickle.pkl")]))) (fset FPkl (CPickle data) files)).
+
+Definition reserved (k : string) : bool := String.eqb k "shape" || String.eqb k "device" || String.eqb k "_type".
+Definition lazy_meta (sd n : nat) : list (string * json) :=
+  [("_type", JStr "LazyStackedTensorDict"); ("stack_dim", jnat sd); ("num_tensordicts", jnat n)].
 
 (* save_over o t d : the directory after t._memmap_(prefix=d) has run with executor=None.
    Entries are visited in insertion order; a leaf writes its file, a collection recurses into its sub-directory
@@ -246,12 +268,16 @@ Fixpoint save_over (o : opts) (t : td) (d : dir) {struct t} : res dir :=
                : res (list (fname * content) * list (string * dir)) :=
                match es with
                | [] => Ok (files, subs)
-               | (k, Leaf l) :: r => bind (populate o k l files) (fun f' => go r f' subs)
-               | (k, c) :: r => bind (save_over o c (sub_dir k subs)) (fun d' => go r files (jset k d' subs))
+               | (k, x) :: r =>
+                   if reserved k then Raised EValueError      (* _check_memmap_key *)
+                   else match x with
+                        | Leaf l => bind (populate o k l files) (fun f' => go r f' subs)
+                        | c => bind (save_over o c (sub_dir k subs)) (fun d' => go r files (jset k d' subs))
+                        end
                end) ents files subs)
            (fun fs => Ok (Dir (fset FMeta (CJson (JObj (node_meta bs ents))) (fst fs)) (snd fs)))
   | Lazy sd ms =>
-      let files' := fset FMeta (CJson (JObj [("_type", JStr "LazyStackedTensorDict"); ("stack_dim", jnat sd)])) files in
+      let files' := fset FMeta (CJson (JObj (lazy_meta sd (List.length ms)))) files in
       bind ((fix go (ms : list td) (i : nat) (subs : list (string * dir)) : res (list (string * dir)) :=
                match ms with
                | [] => Ok subs
@@ -261,8 +287,8 @@ Fixpoint save_over (o : opts) (t : td) (d : dir) {struct t} : res dir :=
   | TCls c inner =>
       let files' := fset FMeta (CJson (JObj [("_type", JStr c)])) files in
       bind (save_over o inner (sub_dir "_tensordict" subs)) (fun d' => Ok (Dir files' (jset "_tensordict" d' subs)))
-  | NData _ p => bind (ndata_files p files) (fun f' => Ok (Dir f' subs))
-  | NStack items => bind (nstack_files (tolist t) files) (fun f' => Ok (Dir f' subs))
+  | NData bs p => bind (ndata_files bs p files) (fun f' => Ok (Dir f' subs))
+  | NStack items => bind (nstack_files (List.length (stack_bs t)) (tolist t) files) (fun f' => Ok (Dir f' subs))
   end end.
 
 Definition encode (o : opts) (t : td) : res dir := save_over o t empty_dir.
@@ -279,25 +305,21 @@ Definition jstr_of (j : json) : option string := match j with JStr s => Some s |
 (* NonTensorStack._from_list (tensorclass.py:3671) *)
 Definition is_plist (p : payload) : bool := match p with PList _ => true | _ => false end.
 Definition plen (p : payload) : nat := match p with PList l => List.length l | _ => 0 end.
-(* batch size of a NonTensorStack / NonTensorData *)
-Fixpoint stack_bs (t : td) : list nat :=
-  match t with
-  | NData bs _ => bs
-  | NStack items => List.length items :: match items with x :: _ => stack_bs x | [] => [] end
-  | _ => []
-  end.
 Fixpoint all_ok {A} (l : list (res A)) : res (list A) :=
   match l with [] => Ok [] | x :: r => bind x (fun a => bind (all_ok r) (fun b => Ok (a :: b))) end.
-(* a NonTensorStack of rebuilt items whose batch sizes differ (possible only when list-valued payloads were taken
-   for stack dimensions) is a heterogeneous lazy stack or an error depending on ranks and on the parent: not followed *)
+(* a NonTensorStack of rebuilt items whose batch sizes differ (ragged data) is a heterogeneous lazy stack or an error
+   depending on ranks and on the parent: not followed *)
 Definition uniform_bs (items : list td) : bool :=
   match items with [] => false | x :: r => forallb (fun y => shape_eqb (stack_bs y) (stack_bs x)) r end.
-Fixpoint from_list (data : payload) : res td :=
+(* ndim: how many levels of the data are stack dimensions (None: a directory written before "ndim" existed —
+   every level of equally long lists is taken for one) *)
+Definition deeper (ndim : option nat) : bool := match ndim with None => true | Some n => Nat.ltb 1 n end.
+Fixpoint from_list (ndim : option nat) (data : payload) : res td :=
   match data with
   | PList l =>
-      let nested := forallb is_plist l && forallb (fun x => Nat.eqb (plen x) (plen (hd PNone l))) l in
+      let nested := forallb is_plist l && forallb (fun x => Nat.eqb (plen x) (plen (hd PNone l))) l && deeper ndim in
       bind (all_ok ((fix go (l : list payload) : list (res td) :=
-                       match l with [] => [] | x :: r => (if nested then from_list x else Ok (NData [] x)) :: go r end) l))
+                       match l with [] => [] | x :: r => (if nested then from_list (option_map pred ndim) x else Ok (NData [] x)) :: go r end) l))
            (fun items => if uniform_bs items then Ok (NStack items) else Raised EReinterpret)
   | p => Ok (NData [] p)
   end.
@@ -310,24 +332,35 @@ Definition load_record (files : list (fname * content)) (k : string) (r : json) 
       match jget "type" r with
       | Some _ => Ok RPath
       | None =>
-          match jget "dtype" r, jget "shape" r, fget (FLeaf k) files with
-          | Some jd, Some js, Some c =>
+          match jget "dtype" r, jget "shape" r with
+          | Some jd, Some js =>
               match jstr_of jd, jshape_of js with
               | Some sd, Some sh =>
-                  match str_dtype sd with
-                  | None => Raised EKeyError
-                  | Some dt =>
-                      match c with
-                      | CCells dt' cells =>
-                          if dtype_eqb dt dt' && Nat.eqb (List.length cells) (numel sh)
-                          then Ok (RLeaf (Leaf {| lshape := sh; ldtype := dt; lcells := cells; lsrc := MMElsewhere |}))
-                          else Raised EReinterpret
-                      | _ => Raised EReinterpret
+                  match fget (FLeaf k) files with
+                  | None =>
+                      (* no file: an entry without elements has none, anything else is skipped *)
+                      if Nat.eqb (numel sh) 0 then
+                        match str_dtype sd with
+                        | None => Raised EKeyError
+                        | Some dt => Ok (RLeaf (Leaf {| lshape := sh; ldtype := dt; lcells := []; lsrc := MMElsewhere |}))
+                        end
+                      else Ok RSkip
+                  | Some c =>
+                      match str_dtype sd with
+                      | None => Raised EKeyError
+                      | Some dt =>
+                          match c with
+                          | CCells dt' cells =>
+                              if dtype_eqb dt dt' && Nat.eqb (List.length cells) (numel sh)
+                              then Ok (RLeaf (Leaf {| lshape := sh; ldtype := dt; lcells := cells; lsrc := MMElsewhere |}))
+                              else Raised EReinterpret
+                          | _ => Raised EReinterpret
+                          end
                       end
                   end
               | _, _ => Raised EOther
               end
-          | _, _, _ => Ok RSkip
+          | _, _ => Ok RSkip
           end
       end
   | _ => Ok RSkip
@@ -346,8 +379,12 @@ Fixpoint load_records (files : list (fname * content)) (m : list (string * json)
         end))
   end.
 
-(* result._set_str(key, loaded, validated=False): a NonTensorData takes the batch size of the node it is put in *)
-Definition adopt (bs : list nat) (t : td) : td := match t with NData _ p => NData bs p | _ => t end.
+(* result._set_str(key, loaded, validated=False): a NonTensorData whose batch size does not start with the node's (one
+   loaded from a directory written before "batch_size" existed has []) takes the batch size of the node *)
+Fixpoint is_prefix (a b : list nat) : bool :=
+  match a, b with [], _ => true | x :: r, y :: s => Nat.eqb x y && is_prefix r s | _, _ => false end.
+Definition adopt (bs : list nat) (t : td) : td :=
+  match t with NData b p => if is_prefix bs b then NData b p else NData bs p | _ => t end.
 
 Fixpoint load_subs (bs : list nat) (paths : list string) (ds : list (string * res td)) : res (list (string * td)) :=
   match ds with
@@ -387,8 +424,13 @@ Definition load_lazy (ds : list (string * res td)) (m : list (string * json)) : 
   match sget "stack_dim" m with
   | Some j =>
       match jnat_of j with
-      | Some sd => bind (load_members (S (List.length ds)) 0 ds) (fun ms =>
-                     match ms with [] => Raised ERuntime | _ => Ok (Lazy sd ms) end)
+      | Some sd =>
+          (* while (num_tensordicts is None or i < num_tensordicts) and (prefix / str(i)).exists() *)
+          let fuel := match sget "num_tensordicts" m with
+                      | Some jn => match jnat_of jn with Some n => n | None => S (List.length ds) end
+                      | None => S (List.length ds)
+                      end in
+          bind (load_members fuel 0 ds) (fun ms => match ms with [] => Raised ERuntime | _ => Ok (Lazy sd ms) end)
       | None => Raised EOther
       end
   | None => Raised EKeyError
@@ -396,9 +438,10 @@ Definition load_lazy (ds : list (string * res td)) (m : list (string * json)) : 
 
 (* NonTensorStack._load_memmap *)
 Definition load_nstack (files : list (fname * content)) (ds : list (string * res td)) (m : list (string * json)) : res td :=
+  let ndim := match sget "ndim" m with Some jn => jnat_of jn | None => None end in
   match sget "data" m with
-  | Some (JStr f) => match fget FPkl files with Some (CPickle p) => from_list p | _ => Raised EFileNotFound end
-  | Some j => from_list (payload_of_json j)
+  | Some (JStr f) => match fget FPkl files with Some (CPickle p) => from_list ndim p | _ => Raised EFileNotFound end
+  | Some j => from_list ndim (payload_of_json j)
   | None => bind (load_members (S (List.length ds)) 0 ds) (fun ms =>
               match ms with [] => Raised ERuntime | _ => Ok (NStack ms) end)
   end.
@@ -406,10 +449,11 @@ Definition load_nstack (files : list (fname * content)) (ds : list (string * res
 (* tensorclass _load_memmap on a NonTensorData: non_tensordict = metadata minus _type, updated with other.pickle *)
 Definition load_ndata (files : list (fname * content)) (m : list (string * json)) : res td :=
   let from_meta := match sget "data" m with Some j => payload_of_json j | None => PNone end in
+  let bs := match sget "batch_size" m with Some j => match jshape_of j with Some b => b | None => [] end | None => [] end in
   match fget FOther files with
-  | Some (CPickle (PDict l)) => Ok (NData [] (match sget "data" l with Some p => p | None => from_meta end))
+  | Some (CPickle (PDict l)) => Ok (NData bs (match sget "data" l with Some p => p | None => from_meta end))
   | Some _ => Raised EOther
-  | None => Ok (NData [] from_meta)
+  | None => Ok (NData bs from_meta)
   end.
 
 (* tensorclass _load_memmap on any other registered class *)
@@ -462,24 +506,19 @@ Fixpoint norm (t : td) : td :=
   end.
 
 (* ------------------------------------------------------------------ the domain of the round-trip theorem *)
-Definition reserved (k : string) : bool := String.eqb k "shape" || String.eqb k "device" || String.eqb k "_type".
-Definition supported (d : dtype) : bool := match d with F8E4M3 | F8E5M2 => false | _ => true end.
 Fixpoint nodupb (l : list string) : bool :=
   match l with [] => true | k :: r => negb (existsb (String.eqb k) r) && nodupb r end.
 Definition builtin_cls (c : string) : bool :=
   String.eqb c "TensorDict" || String.eqb c "LazyStackedTensorDict" || String.eqb c "NonTensorData" || String.eqb c "NonTensorStack".
-Definition payload_ok (p : payload) : bool := if is_json_serializable p then plainb p else true.
-Definition listlike (p : payload) : bool := match p with PList _ | PTuple _ | PSet _ => true | _ => false end.
 Definition is_collection (t : td) : bool := match t with Node _ _ | Lazy _ _ | TCls _ _ => true | _ => false end.
 Definition leaf_ok (o : opts) (l : leaf) : bool :=
-  negb (Nat.eqb (numel (lshape l)) 0) && Nat.eqb (List.length (lcells l)) (numel (lshape l)) && supported (ldtype l)
-  && negb (refused o l).
+  Nat.eqb (List.length (lcells l)) (numel (lshape l)) && negb (refused o l).
 
-(* items of a NonTensorStack: scalar (batch size []) NonTensorData with a payload that is not a list, or, all of them,
-   NonTensorStacks of one common length *)
+(* items of a NonTensorStack: scalar (batch size []) NonTensorData (any payload), or, all of them, NonTensorStacks of one
+   common batch size (NonTensorData items with a batch size are written here as stacks of scalars: same tolist()) *)
 Fixpoint stack_ok (t : td) : bool :=
   match t with
-  | NData bs p => match bs with [] => negb (listlike p) | _ => false end
+  | NData bs p => match bs with [] => true | _ => false end
   | NStack items =>
       negb (Nat.eqb (List.length items) 0)
       && (fix all (l : list td) : bool := match l with [] => true | x :: r => stack_ok x && all r end) items
@@ -497,19 +536,17 @@ Fixpoint valid (o : opts) (t : td) : bool :=
       && (fix all (es : list (string * td)) : bool :=
             match es with
             | [] => true
-            | (_, x) :: r => valid o x && match x with NData b _ => shape_eqb b bs | _ => true end && all r
+            | (_, x) :: r => valid o x && match x with NData b _ => is_prefix bs b | _ => true end && all r
             end) ents
   | Lazy _ ms =>
       negb (Nat.eqb (List.length ms) 0)
       && (fix all (l : list td) : bool := match l with [] => true | x :: r => valid o x && is_collection x && all r end) ms
   | TCls c inner => negb (builtin_cls c) && valid o inner && is_collection inner
-  | NData _ p => payload_ok p
-  | NStack _ => stack_ok t && payload_ok (tolist t)
+  | NData _ _ => true
+  | NStack _ => stack_ok t
   end.
 
-(* a root NonTensorData is loaded with batch size [] *)
-Definition valid_root (o : opts) (t : td) : bool :=
-  valid o t && negb (like o) && match t with Leaf _ => false | NData bs _ => match bs with [] => true | _ => false end | _ => true end.
+Definition valid_root (o : opts) (t : td) : bool := valid o t && negb (like o) && negb (is_leaf t).
 
 (* ------------------------------------------------------------------ make_memmap / make_memmap_from_tensor / make_memmap_from_storage
    (_td.py: _make_memmap_subtd and the make_memmap family): a new tensor entry is added to a saved tensordict under a (nested) key;
@@ -534,6 +571,7 @@ Fixpoint grow_at (ks : list string) (k : string) (l : leaf) (t : td) (d : dir) {
       match ks with
       | [] =>
           if smem k ents then Raised ERuntime        (* "The key ... already exists within the target tensordict" *)
+          else if reserved k then Raised EValueError (* _check_memmap_key *)
           else
             bind (load_meta files) (fun m =>
               let files1 := if Nat.eqb (numel (lshape l)) 0 then files else fset (FLeaf k) (CCells (ldtype l) (lcells l)) files in
@@ -547,6 +585,7 @@ Fixpoint grow_at (ks : list string) (k : string) (l : leaf) (t : td) (d : dir) {
           | Some _ => Raised EOther
           | None =>
               let sub0 := Node bs [] in
+              if reserved k0 then Raised EValueError else
               bind (save_over default_opts sub0 (sub_dir k0 subs)) (fun d0 =>
               bind (load_meta files) (fun m =>
               let files' := fset FMeta (CJson (resave_meta bs (jset k0 (coll_record sub0) m))) files in
